@@ -128,3 +128,44 @@ func c12FirstUse() {
 		}
 	}
 }
+
+// C12/close-first: Close is the very first call ever made on a zero-value Buffer (a buffer that was
+// created and never needed). It is closed like any other: Done is closed, later Put and NewConsumer
+// fail, a second Close fails, and nothing of the library is left running.
+func init() {
+	Register(Harness{Prop: "C12", Name: "C12/close-first", Run: c12CloseFirst, Weight: 1})
+}
+
+func c12CloseFirst() {
+	b := new(bigbuff.Buffer)
+	n0 := len(simrt.Tasks())
+	if err := b.Close(); err != nil {
+		simrt.Failf("C12.close", "the first Close of a fresh Buffer failed: %v", err)
+		return
+	}
+	select {
+	case <-b.Done():
+	default:
+		simrt.Failf("C12.done-not-closed", "Close of a fresh Buffer returned, its Done channel is open")
+		return
+	}
+	if err := b.Put(context.Background(), 1); err == nil {
+		simrt.Failf("C12.later-call-no-error", "Put on a Buffer whose first call was Close returned nil")
+		return
+	}
+	if c, err := b.NewConsumer(); err == nil || c != nil {
+		simrt.Failf("C12.later-call-no-error", "NewConsumer on a Buffer whose first call was Close returned (%v, %v)", c, err)
+		return
+	}
+	if err := b.Close(); err == nil {
+		simrt.Failf("C12.second-close-no-error", "a second Close returned nil")
+		return
+	}
+	simrt.Quiesce(-1)
+	for _, t := range simrt.Tasks() {
+		if t.ID >= n0 && t.Lib && t.State != simrt.Done {
+			simrt.Failf("C12.goroutine-left", "a Buffer whose first call was Close: a goroutine of the library is still there: %s (%v on %s)", t.Name, t.State, t.On)
+			return
+		}
+	}
+}
